@@ -731,11 +731,13 @@ var mul64 = []*instructionType{
 			r1Abs := exprtools.Abs(r1, width64)
 			mul := expr.NewBinary(expr.Mul, r1Abs, r2, width128)
 			shift := expr.ConstFromUint[uint8](64)
-			shifted := expr.NewBinary(expr.Rsh, mul, shift, width128)
+			// The product of a negative r1 is the negated product of its
+			// absolute value. The whole double-width product has to be
+			// negated, not just its upper half.
 			val := exprtools.BoolCond(
 				exprtools.IntNegative(r1, width64),
-				shifted,
-				exprtools.Negate(shifted, width64),
+				expr.NewBinary(expr.Rsh, exprtools.Negate(mul, width128), shift, width128),
+				expr.NewBinary(expr.Rsh, mul, shift, width128),
 				width64,
 			)
 			return []expr.Effect{regStore(val, i, width64)}
